@@ -103,6 +103,11 @@ def build(seed):
             "sc": sc.get_uri(), "sd": sd.get_uri(),
         }
         _SCN.update(snap=g.save_disk(), caps={k: v.decode() for k, v in caps.items()})
+        # keys the scenario consumed: a request that creates a NEW mutable object on the restored grid must
+        # draw a key the scenario did not use (a reused key = an existing storage index = every creation
+        # fails with UncoordinatedWriteError, which hid creations through read-only authority)
+        _SCN["keys_used"] = c.key_generator.i
+        assert _SCN["keys_used"] < len(grid.fixture_keys()), "scenario uses every fixture key"
         # secrets that must never appear in a response obtained through a read-only entry point
         secrets = []
         for k in ("root", "sub", "sub2", "d3", "m", "mm", "sub3", "sc", "sd"):
@@ -239,11 +244,12 @@ def mutable_digest(g):
 def run_one(item, seed):
     scn = build(seed)
     kind, label, name, method, path, body, headers, follow = item
-    g = grid.Grid(3, client_kw=dict(k=2, n=3, happy=2, max_segment_size=64), restore=scn["snap"])
+    g = grid.Grid(3, client_kw=dict(k=2, n=3, happy=2, max_segment_size=64, key_start=scn["keys_used"]), restore=scn["snap"])
     viol, obs = [], {}
     try:
         w = lib_web.Web(g)
         before = mutable_digest(g)
+        files_before = set(g.share_files())
         r = w.request(method, path, body, headers)
         g.quiesce()
         responses = [r]
@@ -258,7 +264,13 @@ def run_one(item, seed):
             return viol, obs
         obs["status"] = r[0]
         obs["changed"] = before != after
+        created = sorted(set(g.share_files()) - files_before)
+        obs["created"] = len(created)
         if kind == "ro-modify":
+            if created:
+                # "changes nothing on the grid": a refused request must not leave new shares (an orphan
+                # directory or file created before the refusal) on any storage server
+                viol.append(("shares-created-through-read-only-authority:" + name, "%s (%s) through read-only entry point %s left %d new share file(s) on the grid, e.g. %r (status %d)" % (name, method, label, len(created), created[0], r[0])))
             if before != after:
                 viol.append(("modified-through-read-only-authority:" + name, "%s (%s) through read-only entry point %s changed a directory or mutable file on the grid (status %d)" % (name, method, label, r[0])))
             if 0 < r[0] < 400 and "check-repair" not in name:
